@@ -14,7 +14,7 @@ rc::Gen<std::string> content(int maxLen) {
 
 Register r17("C17", [](Tier t) {
     using namespace c17;
-    auto ops = genOps({{WRITE, 8, 3, 8191, 1}, {SEEK, 6, 2, 8191, 7}, {SIZE, 6, 0, 0, 0}, {TELL, 2, 0, 0, 0}, {READ_BUF, 6, 1, 4, 11}, {READ_ALL, 3, 0, 0, 0}, {READ_STR, 3, 0, 0, 0},
+    auto ops = genOps({{WRITE, 8, 3, 8191, 3}, {SEEK, 6, 2, 8191, 7}, {SIZE, 6, 0, 0, 0}, {TELL, 2, 0, 0, 0}, {READ_BUF, 6, 1, 4, 11}, {READ_ALL, 3, 0, 0, 0}, {READ_STR, 3, 0, 0, 0},
                        {REOPEN, 1, 0, 0, 0}}, 24);
     // h: write mode, pre-existing content selector, read mode, repeat factor (x256 KiB), error case selector (1: missing, 2: directory), flush
     int bigMax = t == THOROUGH ? 128 : 16;
